@@ -146,8 +146,8 @@ structure Stream where
   F : Nat := 104               -- `nbytes_aligned` of the configured shape
   maxFrames : Nat := 0
   setText : String := ""       -- what the mock prints for `camera_set` of this stream's shape
-  sinkCh : Sys := Sys.init 4096
-  filtCh : Sys := Sys.init 4096
+  sinkCh : Sys := (step (Sys.init 4096) .join).1   -- a channel with the reader its worker registered at init
+  filtCh : Sys := (step (Sys.init 4096) .join).1
   sinkFrames : List (Nat × Frame) := []   -- ghost: (start byte in the committed stream, frame)
   monReg : Bool := false       -- the client's monitor reader is registered (reader 1 of `sink.in`)
   srcStopping : Bool := false
